@@ -408,6 +408,15 @@ func dispatch(op string, a []val) string {
 		p := babyjub.NewPoint()
 		r := p.Set(mkPoint(a[0].i, a[1].i))
 		return pt(p) + " " + pt(r)
+	case "psetalias": // p.Set(p): the argument is the receiver itself
+		p := mkPoint(a[0].i, a[1].i)
+		r := p.Set(p)
+		return pt(p) + " " + pt(r)
+	case "psetshared": // the argument is a distinct Point sharing its big.Ints with the receiver
+		p := mkPoint(a[0].i, a[1].i)
+		c := &babyjub.Point{X: p.X, Y: p.Y}
+		r := p.Set(c)
+		return pt(p) + " " + pt(r)
 	case "mulB8": // s * B8 with the package-level point itself as argument
 		return pt(babyjub.NewPoint().Mul(a[0].i, babyjub.B8))
 	case "incurveB8":
